@@ -506,7 +506,10 @@ class Pass2(CompilePass):
                         f'{arg.type.name.upper()}',
                         node=arg)
             elif arg_type == 'array':
-                if not arg.type.is_array:
+                # (the name of an array, not an expression around
+                # one: the generator needs the variable)
+                if not arg.type.is_array or \
+                   not isinstance(arg, Lvalue):
                     raise CompileError(
                         EC.TYPE_MISMATCH,
                         f'Type mismatch; expected an array; got '
